@@ -49,21 +49,7 @@ Definition step_tok (s : st) (t : tok) : option (option st) :=
        the reply (normal or RESPONSE_TOO_LARGE error reply) travels back with the server context's response headers *)
     let i := znat (nth_tok 1 f) in
     let hadd := as_pairs (nth_tok 2 f) in
-    Some (match step s ONewProto with
-          | Some s1 =>
-            let p := Nat.pred (length (protos s1)) in
-            let j := length (ctxs s1) in
-            match send_request s1 i p with
-            | Some s2 =>
-              if Nat.eqb (length (ctxs s2)) j then Some s2     (* request rejected: no server context *)
-              else match run s2 (map (fun kv => OAdd j MResp (fst kv) (snd kv)) hadd) with
-                   | Some s3 => send_response s3 j i
-                   | None => None
-                   end
-            | None => None
-            end
-          | None => None
-          end)
+    Some (whole_call s i hadd)
   else match decode_op t with Some o => Some (step s o) | None => None end.
 
 Fixpoint replay (s : st) (steps : list tok) (n : Z) : Z :=
